@@ -29,11 +29,20 @@ package agent
 //@   trusted
 //@   noeffect
 
+// The status the agent reports and records: the scheduler's outcome (shown as running from the moment the graph
+// has started), the request id of this run, and one faithful record per node.
 //@ fn (*Agent).Status(a) (st)
 //@   props C03 C04 C08 C14 C16
-//@   trusted
-//@   modifies heap(alloc)
-//@   ensures st != nil
+//@   requires a.scheduler != nil && a.graph != nil && a.dag != nil && nodes_wf(a.graph)
+//@   modifies heap(alloc), ghost obs.nodedata_len
+//@   ensures st != nil && !wasAllocated(st)
+//@   ensures [C08 reported_outcome_is_the_scheduler_outcome] st.Status ==
+//@        ite(outcome(a.scheduler, a.graph) == scheduler.StatusNone && a.graph.startedAt != 0, scheduler.StatusRunning, outcome(a.scheduler, a.graph))
+//@   ensures [C08 reported_run_is_this_run] st.RequestID == a.requestID && st.Name == a.dag.Name && st.Log == a.logFile
+//@   ensures [C08 node_table_is_the_graph_state] len(a.graph.nodes) != 0 ==> (len(st.Nodes) == len(a.graph.nodes) &&
+//@        (forall i int :: 0 <= i && i < len(a.graph.nodes) ==> (st.Nodes[i] != nil &&
+//@            st.Nodes[i].Status == a.graph.nodes[i].data.State.Status && st.Nodes[i].RetryCount == a.graph.nodes[i].data.State.RetryCount &&
+//@            st.Nodes[i].DoneCount == a.graph.nodes[i].data.State.DoneCount && st.Nodes[i].Log == a.graph.nodes[i].data.State.Log)))
 
 //@ fn (*Agent).newScheduler(a) (sc)
 //@   props C03 C15
